@@ -82,6 +82,7 @@ func (g *gen) property(p string) bool {
 		g.genQR()
 		g.stageQR()
 		g.dictFamily("qr")
+		g.pow2Positions("qr")
 		g.genRSCrafted(285, 256, 0)
 		g.genRSCraftedQR()
 		g.genRSCraftedQRContent()
@@ -89,12 +90,14 @@ func (g *gen) property(p string) bool {
 		g.genDM()
 		g.stageDM()
 		g.dictFamily("dm")
+		g.pow2Positions("dm")
 		g.genRSCrafted(301, 256, 1)
 		g.genRSCraftedDM()
 	case "C03":
 		g.genAztec()
 		g.stageAztec()
 		g.dictFamily("aztec")
+		g.pow2Positions("aztec")
 		for _, f := range [][3]int{{19, 16, 1}, {67, 64, 1}, {301, 256, 1}, {1033, 1024, 1}, {4201, 4096, 1}} {
 			g.genRSCrafted(f[0], f[1], f[2])
 		}
@@ -102,6 +105,7 @@ func (g *gen) property(p string) bool {
 		g.genPDF()
 		g.stagePDF()
 		g.dictFamily("pdf")
+		g.pow2Positions("pdf")
 	case "C05":
 		g.genC128()
 		g.stageC128()
@@ -114,6 +118,7 @@ func (g *gen) property(p string) bool {
 		g.genC39C93()
 		g.stageC39C93()
 		g.dictFamily("c39")
+		g.dictThresholds()
 	case "C08":
 		g.genCodabar()
 		g.genTof()
@@ -153,6 +158,7 @@ func (g *gen) property(p string) bool {
 		g.genCheckSum()
 		g.stageEAN()
 		g.stageC39C93()
+		g.dictThresholds()
 	case "C15":
 		g.genMixed(g.n(400, 3000), true)
 	case "C16":
